@@ -122,8 +122,21 @@ def h_hide(ctx, cfg):
         return
     try:
         R = S.mask(sig, n, *names, **hides)
-    except ValueError:
+    except ValueError as e:
         ctx.count('raised')
+        # the flags only remove parameters: they may not turn arguments that sig can be passed into an error --
+        # except hide_args together with a name that is itself a positional parameter (the flag says the hidden
+        # positionals fill every positional parameter: the declaration contradicts itself, 10.3)
+        try:
+            S.mask(sig, n, *names)
+        except ValueError:
+            return
+        with sym.notrace():
+            kinds = dict(zip(spec.names, spec.kinds))
+            contradictory = hides['hide_args'] and any(kinds.get(nm) in (0, 1) for nm in names)
+        ctx.nontrivial = True
+        ctx.require('hide-flags-do-not-make-it-raise', contradictory,
+                    lambda: dict(exc=repr(e), n=sym.pin(n), names=list(names)))
         return
     ctx.count('returned')
     ctx.nontrivial = True
